@@ -845,8 +845,9 @@ func vkRun(t *testing.T, c *vfCase, st *vfStats) {
 	vn.unreach = c.Cfg[5]&vkUnreach != 0
 	vn.slowWrite = c.Cfg[5]&vkSlowWrite != 0
 	vn.logs = map[int]*vkLog{}
-	if c.Cfg[0] == 2 && os.Getenv("VF_INSTR") != "" {
-		for i := 0; i < 3 && i < N; i++ {
+	if os.Getenv("VF_INSTR") != "" && (c.Cfg[0] == 1 || c.Cfg[0] == 2) {
+		// fault histories: three nodes; healthy-then-crash histories: two
+		for i := 0; i < 4-int(c.Cfg[0]) && i < N; i++ {
 			vn.logs[i] = &vkLog{}
 		}
 	}
